@@ -354,6 +354,22 @@ def find_target(target):
     return found
 
 
+_LOOP_SIGS = None
+
+
+def recorded_loop_sigs():
+    """expected/loop_sigs.json: per target under contract with loop invariants, the signatures of its loops on the unchanged tree"""
+    global _LOOP_SIGS
+    if _LOOP_SIGS is None:
+        import json as _json, os as _os
+        p_ = _os.path.join(_os.path.dirname(_os.path.dirname(_os.path.abspath(__file__))), 'expected', 'loop_sigs.json')
+        try:
+            _LOOP_SIGS = _json.load(open(p_))
+        except (OSError, ValueError):
+            _LOOP_SIGS = {}
+    return _LOOP_SIGS
+
+
 BASELINE_NAMES = set()  # obligations proved on the unchanged tree: always examined, never skipped after other failures
 KNOWN_OPEN = set()      # obligation names listed as open known findings: only a short attempt is made on them
 
@@ -405,7 +421,7 @@ def _verify_body(eng, contract, target, mod, cname, node, res, seed, timeout_ms,
     fn = source.prepared(node)
     fn._pyvc_prepared = True
     from .loops import number_loops
-    number_loops(fn)
+    number_loops(fn, recorded_loop_sigs().get(target))
     schema = contract.schema
     ctx = Ctx()
     ctx.st = State.fresh(schema, 'pre')
@@ -431,17 +447,35 @@ def _verify_body(eng, contract, target, mod, cname, node, res, seed, timeout_ms,
         vars[pos[0]] = contract.self_rec(eng, ctx)
     names = pos[1:] if is_method else pos
     all_params = names + ([vararg] if vararg else []) + kwonly + ([kwarg] if kwarg else [])
+    import ast as _ast
     for p in all_params:
         if p not in contract.params:
+            d_ = defaults.get(p)
+            if isinstance(d_, _ast.Constant) and p not in (vararg, kwarg):
+                # a parameter the contract does not know, with a constant default: the callers the contract describes never pass
+                # it, so the body is verified with the default (a new optional parameter is not by itself a reason to give up)
+                outs_ = list(eng.ev(d_, ctx))
+                if len(outs_) == 1:
+                    vars[p] = outs_[0][1]
+                    eng.ext.note('parameter %r of %s is not in the contract; verified with its default value' % (p, tname))
+                    continue
             raise Unsupported('contract of %s does not declare parameter %r (signature changed?)' % (tname, p))
         vars[p] = make_param(eng, ctx, p, contract.params[p])
+    if kwarg and kwarg in vars:
+        # Python binds a keyword argument to a named parameter before it reaches **kwargs
+        from .engine import HRef as _HRef
+        kwv_ = vars[kwarg]
+        if isinstance(kwv_, _HRef) and ctx.heap[kwv_.id].kind == 'map' and isinstance(ctx.heap[kwv_.id].data, dict):
+            for p in all_params:
+                if p not in contract.params and smt.atom(p) in ctx.heap[kwv_.id].data:
+                    vars[p] = ctx.heap[kwv_.id].data.pop(smt.atom(p))
     for p in contract.params:
         if p not in all_params:
             raise Unsupported('contract of %s declares parameter %r which the function does not have' % (tname, p))
     if contract.env_hook:
         contract.env_hook(eng, ctx)
     pre = ctx.st
-    args = {p: vars[p] for p in all_params}
+    args = {p: vars[p] for p in all_params if p in contract.params}
     for cv_ in getattr(contract, 'closure_vars', {}):
         args[cv_] = vars[cv_]
     if is_method:
